@@ -4,6 +4,8 @@ import (
 	"crypto/sha256"
 	"encoding/hex"
 	"fmt"
+	"os"
+	"runtime"
 	"sort"
 	"strings"
 	"sync"
@@ -97,7 +99,12 @@ type World struct {
 	nonDefault int
 	lastFired  string
 
+	// MaxIdle is how much simulated time the drain lets pass with nothing
+	// happening before it concludes that nothing will (must exceed every
+	// timeout that can still be pending after Heal).
+	MaxIdle   time.Duration
 	OrderSalt uint64
+	Barriers  map[string]bool
 	Yields    map[string]bool
 	objNames  map[any]string
 	OnObserve func(site, detail string, obj any)
@@ -142,6 +149,16 @@ func (w *World) installHooks() {
 		}
 	}
 	verifhook.YieldFn = func(site, detail string, obj any) {
+		if w.Barriers[site] {
+			// not a scheduling choice: hold the caller until everything else has
+			// settled, then let it go (one barrier at a time, in key order)
+			d := detail
+			if len(d) > 8 {
+				d = d[:8]
+			}
+			w.Park("barrier", "barrier|"+site+"|"+d)
+			return
+		}
 		if !w.Yields[site] {
 			return
 		}
@@ -177,8 +194,10 @@ func (w *World) NameObject(obj any, name string) {
 func newWorld0(t *testing.T, tape *Tape) *World {
 	return &World{
 		objNames: map[any]string{},
+		Barriers: map[string]bool{"executor.afterAdvance": true},
+		MaxIdle:  50 * time.Second,
 		Yields:   map[string]bool{"messagequeue.beforeSendMessage": true},
-		T: t, Tape: tape,
+		T:        t, Tape: tape,
 		gates:    map[string]*Event{},
 		keySeq:   map[string]int{},
 		Faults:   map[string]int{},
@@ -288,6 +307,9 @@ func (w *World) endStep() {
 			w.Trace = append(w.Trace, fmt.Sprintf("%4d   %s", w.Step, e))
 		}
 	}
+	// the step counter moves only here, at a quiescent point, so that every
+	// goroutine woken by the next decision reads the same value
+	w.Step++
 }
 
 func (w *World) TraceHash() string { return hex.EncodeToString(w.hash[:8]) }
@@ -431,12 +453,19 @@ func RunOnce(t *testing.T, mk func() Scenario, tape *Tape, opt RunOpts) (res Res
 		}
 
 		idle := 0
-		for w.Step = 0; w.Step < w.Prof.StepCap; w.Step++ {
-			synctest.Wait()
+		for w.Step = 0; w.Step < w.Prof.StepCap; {
+			w.settle()
 			w.endStep()
 			if w.viol == nil {
 				if v := sc.Invariant(w); v != nil {
 					w.Violate(v)
+				}
+			}
+			if w.viol == nil {
+				if pr, ok := sc.(Prober); ok {
+					if v := w.runProbe(pr); v != nil {
+						w.Violate(v)
+					}
 				}
 			}
 			if w.viol != nil {
@@ -465,88 +494,187 @@ func RunOnce(t *testing.T, mk func() Scenario, tape *Tape, opt RunOpts) (res Res
 			w.fireEvent(ev, out)
 		}
 
-		// heal, then fair drain
+		// heal, then fair drain; scenarios with several heal phases get one drain per phase
 		sc.Heal(w)
 		w.draining = true
-		budget := 4000
-		quiet := 0
-		var simIdle time.Duration
-		for i := 0; i < budget; i++ {
-			w.Step++
-			synctest.Wait()
-			w.mu.Lock()
-			hadEffects := false
-			for _, e := range w.effects {
-				if !strings.HasPrefix(e, "drain-advance") {
-					hadEffects = true
+		abort := false
+		drain := func() {
+			budget := 4000
+			quiet := 0
+			var simIdle time.Duration
+			for i := 0; i < budget; i++ {
+				w.settle()
+				w.mu.Lock()
+				hadEffects := false
+				for _, e := range w.effects {
+					if !strings.HasPrefix(e, "drain-advance") {
+						hadEffects = true
+					}
 				}
-			}
-			w.mu.Unlock()
-			w.endStep()
-			if w.viol == nil {
-				if v := sc.Invariant(w); v != nil {
-					w.Violate(v)
+				w.mu.Unlock()
+				w.endStep()
+				if w.viol == nil {
+					if v := sc.Invariant(w); v != nil {
+						w.Violate(v)
+					}
 				}
-			}
-			if w.viol != nil {
-				finish()
-				return
-			}
-			evs := w.enabled()
-			var oldest *Event
-			for _, e := range evs {
-				if e.Class == "advance" {
+				if w.viol == nil {
+					if pr, ok := sc.(Prober); ok {
+						if v := w.runProbe(pr); v != nil {
+							w.Violate(v)
+						}
+					}
+				}
+				if w.viol != nil {
+					abort = true
+					return
+				}
+				evs := w.enabled()
+				var oldest *Event
+				for _, e := range evs {
+					if e.Class == "advance" {
+						continue
+					}
+					if oldest == nil || e.since < oldest.since {
+						oldest = e
+					}
+				}
+				if oldest != nil {
+					quiet = 0
+					simIdle = 0
+					w.fireEvent(oldest, oldest.Outcomes[0])
 					continue
 				}
-				if oldest == nil || e.since < oldest.since {
-					oldest = e
+				if hadEffects {
+					quiet = 0
+					simIdle = 0
+				}
+				// nothing enabled: let time pass, in growing jumps, until well past every timeout
+				if sc.Done(w) && quiet >= 2 {
+					break
+				}
+				if simIdle > w.MaxIdle {
+					break
+				}
+				d := 100 * time.Millisecond
+				switch {
+				case quiet > 12:
+					d = 11 * time.Minute
+				case quiet > 8:
+					d = 15 * time.Second
+				case quiet > 4:
+					d = time.Second
+				}
+				quiet++
+				simIdle += d
+				w.Effect("drain-advance %v", d)
+				w.Advance(d)
+				if i == budget-1 {
+					res.Inconclusive = true
 				}
 			}
-			if oldest != nil {
-				quiet = 0
-				simIdle = 0
-				w.fireEvent(oldest, oldest.Outcomes[0])
-				continue
-			}
-			if hadEffects {
-				quiet = 0
-				simIdle = 0
-			}
-			// nothing enabled: let time pass, in growing jumps, until well past every timeout
-			if sc.Done(w) && quiet >= 2 {
-				break
-			}
-			if simIdle > 45*time.Minute {
-				break
-			}
-			d := 100 * time.Millisecond
-			switch {
-			case quiet > 12:
-				d = 11 * time.Minute
-			case quiet > 8:
-				d = 15 * time.Second
-			case quiet > 4:
-				d = time.Second
-			}
-			quiet++
-			simIdle += d
-			w.Effect("drain-advance %v", d)
-			w.Advance(d)
-			if i == budget-1 {
-				res.Inconclusive = true
+		}
+		drain()
+		if ph, ok := sc.(Phased); ok && !abort {
+			for phase := 1; phase <= 4 && !abort && !res.Inconclusive; phase++ {
+				if !ph.NextPhase(w, phase) {
+					break
+				}
+				drain()
 			}
 		}
-		w.Step++
-		synctest.Wait()
+		if abort {
+			finish()
+			return
+		}
+		w.settle()
 		w.endStep()
 		if w.viol == nil && !res.Inconclusive {
 			if v := sc.Final(w); v != nil {
 				w.Violate(v)
 			}
 		}
+		if os.Getenv("VERIF_DUMP") != "" {
+			buf := make([]byte, 4<<20)
+			n := runtime.Stack(buf, true)
+			os.Stderr.Write(buf[:n])
+		}
 		finish()
 	})
 	return res
+}
+
+// settle waits for quiescence and releases barrier gates one at a time (in
+// key order) until none is left.
+func (w *World) settle() {
+	for {
+		synctest.Wait()
+		w.mu.Lock()
+		var first *Event
+		for _, g := range w.gates {
+			if g.Class == "barrier" && (first == nil || g.Key < first.Key) {
+				first = g
+			}
+		}
+		if first != nil {
+			delete(w.gates, first.Key)
+		}
+		w.mu.Unlock()
+		if first == nil {
+			return
+		}
+		first.fire("ok")
+	}
+}
+
+// Phased scenarios heal in several phases, each followed by a fair drain.
+type Phased interface {
+	NextPhase(w *World, phase int) bool
+}
+
+// Prober scenarios query the system at quiescent points. Probe starts helper
+// goroutines and returns a function that, after the next quiescence, evaluates
+// what they returned.
+type Prober interface {
+	Probe(w *World) func() *Violation
+}
+
+func (w *World) runProbe(p Prober) *Violation {
+	f := p.Probe(w)
+	if f == nil {
+		return nil
+	}
+	w.settle()
+	return f()
+}
+
+// Sync runs f in a helper goroutine and reports whether it returned by the
+// next quiescent point (false: it is blocked on the system).
+func (w *World) Sync(f func()) bool {
+	done := make(chan struct{})
+	go func() {
+		defer close(done)
+		f()
+	}()
+	w.settle()
+	select {
+	case <-done:
+		return true
+	default:
+		return false
+	}
+}
+
+// YieldParked reports whether a goroutine of the node is held at an internal yield.
+func (w *World) YieldParked(node string) bool {
+	w.mu.Lock()
+	defer w.mu.Unlock()
+	for k, g := range w.gates {
+		if g.Class == "yield" && strings.Contains(k, "|"+node+">") {
+			return true
+		}
+	}
+	return false
 }
 
 // teardown cancels everything and lets every system goroutine leave.
